@@ -37,12 +37,15 @@ TOp ==
                                 !.crashes = @ + (IF e.crash # "" THEN 1 ELSE 0)]
   /\ l' = l + 1
 
+FullName(m) == CASE m = "A.m1" -> "/vg.A/m1" [] m = "A.m2" -> "/vg.A/m2" [] m = "B.m1" -> "/vg.B/m1" [] m = "B.m2" -> "/vg.B/m2" [] OTHER -> m
 TProbe ==
   /\ IsEv("Probe")
   /\ LET e == Trace[l]
          lv == live[e.m]
          bad == (IF \E k \in DOMAIN e.outs : e.outs[k].k = "panic" THEN {"Panic"} ELSE {})
                 \cup (IF \E k \in DOMAIN e.outs : e.outs[k].k = "served" /\ e.outs[k].by \notin lv THEN {"DispatchLive"} ELSE {})
+                \* ... and by the handler of the method the request names (C01 as well: a method owning a matching rule)
+                \cup (IF \E k \in DOMAIN e.outs : e.outs[k].k = "served" /\ e.outs[k].meth # FullName(e.m) THEN {"DispatchMethod"} ELSE {})
                 \cup (IF lv # {} /\ \E k \in DOMAIN e.outs : e.outs[k].k \notin {"served", "panic"} THEN {"NoFalseUnimplemented"} ELSE {})
                 \cup (IF lv = {} /\ \E k \in DOMAIN e.outs : e.outs[k].k \notin {"unimplemented", "notfound", "panic"} THEN {"NoneIsUnimplemented"} ELSE {})
      IN /\ failed' = failed \cup {<<e.case, l, f>> : f \in bad}
